@@ -633,7 +633,7 @@ Proof.
        (forall x, ~ In x (map fst ((x0, st) :: r)) -> running w' x -> running w x)).
     { intros r' w'' Hc -> ->. destruct (IH _ _ _ _ _ ND' Hc) as (K1 & K2 & K3 & K4).
       split; [cbn [map fst]; congruence|]. split; [|split].
-      - intros x Hx. cbn [tget alist_get] in *. destruct (x =? x0); auto. apply K2, Hx.
+      - intros x Hx. cbn [tget alist_get] in *. destruct (x =? x0); auto.
       - intros x Hr. destruct (K3 x Hr) as [|Ht]; auto. right. cbn [tget alist_get].
         destruct (x =? x0) eqn:E; [|exact Ht]. apply N.eqb_eq in E; subst x.
         exfalso. apply Hnin. rewrite <- K1. eapply tget_in; eauto.
@@ -765,3 +765,396 @@ Proof.
   split; auto. intros x Hr. apply (A' x), I', Hr.
 Qed.
 End LAWS.
+
+(* ===================================================================================== *)
+(* C. Witnesses on the kernel model (closed by computation)                                *)
+(* ===================================================================================== *)
+Definition run_summary (r : res (dbg * kworld * list (option stop_reason))) :=
+  match r with
+  | Ok (d, (k, _), srs) => Some (srs, k_sent k, k_deliv k, t_queue (d_tr d), k_exec k)
+  | _ => None end.
+
+(* --- C10: a quiet signal that arrives inside single_step is delivered twice ------------- *)
+(* one thread (tid 1, pc 100) stopped; SIGALRM is sent; `stepi`; `continue` (runs to exit) *)
+Definition w_quiet_in_step :=
+  k_api_run 50 [] (mkD (tinit [(1, 100)]) 1 100) (kinit [(1, 100)] [] [], [CSend 1 SIGALRM]) [OStepi; OCont].
+
+Theorem C10_quiet_in_step_refuted :
+  exists sch ops d k srs,
+    k_api_run 50 [] (mkD (tinit [(1, 100)]) 1 100) (kinit [(1, 100)] [] [], sch) ops = Ok (d, (k, []), srs)
+    /\ k_sent k = [(1, SIGALRM)] /\ k_deliv k = [(1, SIGALRM); (1, SIGALRM)]
+    /\ k_threads k = [] /\ spec_delivery (k_sent k) (k_deliv k) = false.
+Proof.
+  exists [CSend 1 SIGALRM], [OStepi; OCont].
+  destruct w_quiet_in_step as [[[d [k sch]] srs]| | |] eqn:E; try (vm_compute in E; discriminate).
+  exists d, k, srs. vm_compute in E. inv E. vm_compute. repeat split; reflexivity.
+Qed.
+
+(* two SIGALRMs inside two steps, then continue: 3 deliveries for 2 signals (one queue entry is
+   dropped because its thread is also in the exclude set, tracee.rs:242) and a spurious stop
+   SignalStop(1, SIGALRM) reported for a quiet signal *)
+Theorem C10_quiet_burst_refuted :
+  run_summary (k_api_run 50 [] (mkD (tinit [(1, 100)]) 1 100)
+     (kinit [(1, 100)] [] [], [CSend 1 SIGALRM; CRun 1; CSend 1 SIGALRM]) [OStepi; OStepi; OCont; OCont])
+  = Some ([None; None; Some (SRSignal 1 SIGALRM); Some (SRExit 0)],
+          [(1, SIGALRM); (1, SIGALRM)], [(1, SIGALRM); (1, SIGALRM); (1, SIGALRM)], [], [(1, 100); (1, 101)]).
+Proof. vm_compute. reflexivity. Qed.
+
+(* --- C10: a non-quiet signal reported by a step is held back by further steps ----------- *)
+(* SIGUSR1 sent; stepi reports SignalStop(1, SIGUSR1); the next stepi resumes with data 0: the
+   thread executes an instruction, the handler has not run, nothing is pending in the kernel any
+   more, the only trace of the signal is the tracer's queue.  It is injected by the next
+   `continue` only. *)
+Theorem C10_step_suppresses_refuted :
+  run_summary (k_api_run 50 [] (mkD (tinit [(1, 100)]) 1 100)
+     (kinit [(1, 100)] [] [], [CSend 1 SIGUSR1]) [OStepi; OStepi])
+  = Some ([Some (SRSignal 1 SIGUSR1); None], [(1, SIGUSR1)], [], [(1, SIGUSR1)], [(1, 100)]).
+Proof. vm_compute. reflexivity. Qed.
+
+Theorem C10_step_defers_to_continue :
+  run_summary (k_api_run 50 [] (mkD (tinit [(1, 100)]) 1 100)
+     (kinit [(1, 100)] [] [], [CSend 1 SIGUSR1]) [OStepi; OStepi; OCont])
+  = Some ([Some (SRSignal 1 SIGUSR1); None; Some (SRExit 0)], [(1, SIGUSR1)], [(1, SIGUSR1)], [], [(1, 100)]).
+Proof. vm_compute. reflexivity. Qed.
+
+(* --- C10: a signal absorbed during a group stop can be lost (Continue only) ------------- *)
+(* threads 1 (pc 100) and 2 (standing on the user breakpoint at 200).  SIGUSR1 -> 1, SIGUSR2 -> 2.
+   continue: 1's signal is reported, 2 is interrupted while already in its signal stop (absorbed,
+   interrupt still pending).  continue: SIGUSR1 injected, SignalStop(2, SIGUSR2) reported, focus
+   on 2.  continue: step_over_breakpoint single-steps 2 with data 0 (signal suppressed), the
+   pending interrupt ends the step in PTRACE_EVENT_STOP, then PTRACE_CONT(2, SIGUSR2) from an
+   event stop injects nothing. *)
+Theorem C10_signal_lost_refuted :
+  run_summary (k_api_run 80 [mk_bp 200 BUser 1 true] (mkD (tinit [(1, 100); (2, 200)]) 1 100)
+     (kinit [(1, 100); (2, 200)] [200] [], [CSend 1 SIGUSR1; CSend 2 SIGUSR2; CSig 1; CSig 2])
+     [OCont; OCont; OCont])
+  = Some ([Some (SRSignal 1 SIGUSR1); Some (SRSignal 2 SIGUSR2); Some (SRExit 0)],
+          [(1, SIGUSR1); (2, SIGUSR2)], [(1, SIGUSR1)], [], []).
+Proof. vm_compute. reflexivity. Qed.
+
+(* --- C09: an arrival at a user breakpoint is swallowed while a temporary breakpoint exists *)
+(* thread 1 (focus) runs towards its temporary breakpoint at 15 (step over / step out),
+   thread 2 reaches the user breakpoint at 22: tracer.rs:436-449 steps it over silently *)
+Definition w_swallow :=
+  k_api_run 80 [mk_bp 22 BUser 1 true; mk_bp 15 BTemp 1 true] (mkD (tinit [(1, 10); (2, 20)]) 1 10)
+    (kinit [(1, 10); (2, 20)] [22; 15] [],
+     [CRun 2; CRun 2; CRun 2; CRun 2; CRun 1; CRun 1; CRun 1; CRun 1; CRun 1; CRun 1]) [OCont].
+
+Theorem C09_arrival_swallowed_refuted :
+  exists d k sch srs, w_swallow = Ok (d, (k, sch), srs)
+    /\ srs = [Some (SRBreakpoint 1 15)]
+    /\ In (2, 22) (k_arrivals k) /\ In (2, 22) (k_exec k)
+    /\ spec_exactly_once [22] srs k = false.
+Proof.
+  destruct w_swallow as [[[d [k sch]] srs]| | |] eqn:E; try (vm_compute in E; discriminate).
+  exists d, k, sch, srs. vm_compute in E. inv E. vm_compute. repeat split; auto.
+Qed.
+
+(* --- C09: a hit absorbed during another thread's group stop is rewound and re-trapped --- *)
+Example C09_absorbed_hit_reported_later :
+  let r := k_api_run 80 [mk_bp 22 BUser 1 true] (mkD (tinit [(1, 20); (2, 20)]) 1 20)
+    (kinit [(1, 20); (2, 20)] [22] [], [CRun 2; CRun 2; CRun 1; CRun 1; CRun 2; CRun 1; CRun 2; CIntr 1; CRun 1]) [OCont; OCont] in
+  match r with
+  | Ok (d, (k, _), srs) =>
+      srs = [Some (SRBreakpoint 2 22); Some (SRBreakpoint 1 22)]
+      /\ k_arrivals k = [(2, 22); (1, 22); (1, 22)]
+      /\ spec_exactly_once [22] srs k = true /\ spec_no_skip k = true /\ spec_all_stop (d_tr d) k = true
+  | _ => False end.
+Proof. vm_compute. repeat split; reflexivity. Qed.
+
+(* ===================================================================================== *)
+(* D. The kernel model obeys the laws: all-stop for every schedule                         *)
+(* ===================================================================================== *)
+Lemma kget_kset : forall k x v y,
+  kget (kset k x v) y = if x =? y then match kget k x with Some _ => Some v | None => None end else kget k y.
+Proof.
+  intros k x v y. unfold kget, kset, kwith; cbn [k_threads].
+  induction (k_threads k) as [|[z s] l IH]; cbn [kset_l alist_get].
+  - destruct (x =? y); reflexivity.
+  - destruct (x =? z) eqn:Exz; cbn [alist_get].
+    + apply N.eqb_eq in Exz; subst z. rewrite (N.eqb_sym y x). destruct (x =? y); reflexivity.
+    + rewrite IH. destruct (x =? y) eqn:Exy.
+      * apply N.eqb_eq in Exy; subst y. rewrite Exz. reflexivity.
+      * reflexivity.
+Qed.
+
+Lemma kget_filter : forall l x y,
+  alist_get N.eqb (filter (fun p : N * kthread => negb (fst p =? x)) l) y = if x =? y then None else alist_get N.eqb l y.
+Proof.
+  induction l as [|[z s] l IH]; intros x y; cbn [filter alist_get fst].
+  - destruct (x =? y); reflexivity.
+  - destruct (z =? x) eqn:Ezx; cbn [negb alist_get].
+    + apply N.eqb_eq in Ezx; subst z. rewrite IH. rewrite (N.eqb_sym y x). destruct (x =? y); reflexivity.
+    + rewrite IH. destruct (y =? z) eqn:Eyz; [|reflexivity].
+      apply N.eqb_eq in Eyz; subst z. rewrite (N.eqb_sym x y), Ezx. reflexivity.
+Qed.
+
+Lemma kget_snoc : forall (l : list (N * kthread)) x v y, alist_get N.eqb l x = None ->
+  alist_get N.eqb (l ++ [(x, v)]) y = if x =? y then Some v else alist_get N.eqb l y.
+Proof.
+  induction l as [|[z s] l IH]; intros x v y H; cbn [app alist_get] in *.
+  - rewrite (N.eqb_sym y x). destruct (x =? y); reflexivity.
+  - destruct (x =? z) eqn:Exz; [discriminate|]. rewrite IH by exact H.
+    destruct (y =? z) eqn:Eyz; [|reflexivity].
+    apply N.eqb_eq in Eyz; subst z. rewrite Exz. reflexivity.
+Qed.
+
+(* running after an update of one thread *)
+Lemma krunning_kset : forall k x v y, krunning (kset k x v) y = true ->
+  (x = y /\ kst_running (k_st v) = true /\ kget k x <> None) \/ (x <> y /\ krunning k y = true).
+Proof.
+  intros k x v y H. unfold krunning in H. rewrite kget_kset in H.
+  destruct (x =? y) eqn:E.
+  - apply N.eqb_eq in E. left. destruct (kget k x); [|discriminate]. repeat split; auto. discriminate.
+  - apply N.eqb_neq in E. right. auto.
+Qed.
+
+Lemma krunning_logs : forall l a b c d e f y,
+  krunning (mkKer l a b c d e f) y = match alist_get N.eqb l y with Some th => kst_running (k_st th) | None => false end.
+Proof. reflexivity. Qed.
+
+Lemma krunning_def : forall k y,
+  krunning k y = match kget k y with Some th => kst_running (k_st th) | None => false end.
+Proof. reflexivity. Qed.
+
+Ltac kset_case H :=
+  apply krunning_kset in H; cbn [k_st kst_running stop_th] in H;
+  destruct H as [(-> & H & _)|(_ & H)]; try discriminate H; auto.
+
+Lemma kenv_mono : forall k c x, krunning (kenv k c) x = true -> krunning k x = true.
+Proof.
+  intros k c x H. destruct c as [y s|y|y|y|y c|y|y]; cbn [kenv] in H; auto.
+  - destruct (kget k y) as [th|] eqn:E; auto. destruct (k_st th) eqn:Es; auto;
+    change (krunning (kset k y (mkK (k_st th) (k_rep th) (k_intr th) (k_pend th ++ [s]) (k_pc th) (k_tf th))) x = true) in H
+    || idtac; try (rewrite Es in H);
+    (apply krunning_kset in H; cbn [k_st] in H; destruct H as [(-> & H & _)|(_ & H)]; auto;
+     rewrite krunning_def, E, Es; exact H).
+  - destruct (kget k y) as [th|] eqn:E; auto. destruct (k_st th) eqn:Es; auto.
+    destruct (k_pend th); auto. kset_case H.
+  - destruct (kget k y) as [th|] eqn:E; auto. destruct (k_st th) eqn:Es; auto.
+    destruct (k_intr th); auto. kset_case H.
+  - destruct (kget k y) as [th|] eqn:E; auto. destruct (k_st th) eqn:Es; auto.
+    destruct (mem (k_pc th) (k_int3 k)).
+    + change (krunning (kset k y (mkK (KTrap TRAP_BRKPT) false (k_intr th) (k_pend th) (k_pc th + 1) false)) x = true) in H.
+      kset_case H.
+    + match type of H with krunning (mkKer (k_threads (kset k y ?v)) _ _ _ _ _ _) x = true =>
+        change (krunning (kset k y v) x = true) in H end.
+      apply krunning_kset in H. destruct H as [(-> & H & _)|(_ & H)]; auto.
+      rewrite krunning_def, E, Es. reflexivity.
+  - destruct (kget k y) as [th|] eqn:E; auto. destruct (kget k c) eqn:Ec; auto.
+    destruct (k_st th) eqn:Es; auto.
+    unfold krunning, kget, kwith in H; cbn [k_threads] in H.
+    rewrite kget_snoc in H.
+    + destruct (c =? x); [discriminate|].
+      change (krunning (kset k y (stop_th th (KEv (EvClone c)))) x = true) in H. kset_case H.
+    + change (kget (kset k y (stop_th th (KEv (EvClone c)))) c = None).
+      rewrite kget_kset. destruct (y =? c) eqn:Eyc; auto. apply N.eqb_eq in Eyc; subst c. congruence.
+  - destruct (kget k y) as [th|] eqn:E; auto. destruct (k_st th) eqn:Es; auto. kset_case H.
+Qed.
+
+Definition krun (w : kworld) (x : N) : Prop := krunning (fst w) x = true.
+Definition kexit (w : kworld) (p : N) : Prop := exists th, kget (fst w) p = Some th /\ k_st th = KEv EvExit.
+
+Lemma first_reportable_spec : forall k keys tg x s, first_reportable k keys tg = Some (x, s) ->
+  exists th, kget k x = Some th /\ kstatus x th = Some s /\ (forall y, tg = Some y -> x = y).
+Proof.
+  induction keys as [|z r IH]; intros tg x s H; cbn [first_reportable] in H; [discriminate|].
+  destruct (match tg with Some y => z =? y | None => true end) eqn:Em; [|eauto].
+  destruct (kget k z) as [th|] eqn:Ez; [|eauto].
+  destruct (kstatus z th) as [s'|] eqn:Es; [|eauto].
+  inv H. exists th. repeat split; auto. intros y ->. apply N.eqb_eq in Em. exact Em.
+Qed.
+
+Lemma kstatus_spec : forall x th s, kstatus x th = Some s ->
+  ws_tid s = x /\ kst_running (k_st th) = false /\ (forall p, s = WEvent p EvExit -> k_st th = KEv EvExit).
+Proof.
+  intros x th s H. unfold kstatus in H. destruct (k_rep th); [discriminate|].
+  destruct (k_st th) eqn:E; inv H; cbn [ws_tid kst_running]; repeat split; auto; intros p Hp; inv Hp; reflexivity.
+Qed.
+
+Lemma kconsume_spec : forall k x th s, kget k x = Some th -> kstatus x th = Some s ->
+  (forall y, krunning (kconsume k x) y = true -> krunning k y = true) /\ krunning (kconsume k x) x = false
+  /\ (forall p, s = WEvent p EvExit -> exists th', kget (kconsume k x) x = Some th' /\ k_st th' = KEv EvExit).
+Proof.
+  intros k x th s Hg Hs. destruct (kstatus_spec _ _ _ Hs) as (T & R & X).
+  unfold kconsume. rewrite Hg.
+  assert (CASE2 : forall v, k_st v = k_st th ->
+     (forall y, krunning (kset k x v) y = true -> krunning k y = true) /\ krunning (kset k x v) x = false
+     /\ (forall p, s = WEvent p EvExit -> exists th', kget (kset k x v) x = Some th' /\ k_st th' = KEv EvExit)).
+  { intros v Hv. split; [|split].
+    - intros y H. apply krunning_kset in H. destruct H as [(-> & H & _)|(_ & H)]; auto.
+      rewrite Hv, R in H. discriminate.
+    - rewrite krunning_def, kget_kset, N.eqb_refl, Hg, Hv. exact R.
+    - intros p Hp. exists v. rewrite kget_kset, N.eqb_refl, Hg. split; auto. rewrite Hv. eauto. }
+  destruct (k_st th) eqn:Es; try (apply CASE2; cbn [k_st]; auto).
+  split; [|split].
+  - intros y H. unfold krunning, kget, kwith in *; cbn [k_threads] in *. rewrite kget_filter in H.
+    destruct (x =? y); [discriminate | exact H].
+  - unfold krunning, kget, kwith; cbn [k_threads]. rewrite kget_filter, N.eqb_refl. reflexivity.
+  - intros p Hp. specialize (X p Hp). discriminate.
+Qed.
+
+Lemma kwait_law : forall fuel k sch tg s k' sch', kwait fuel k sch tg = Ok (s, (k', sch')) ->
+  (forall x, krunning k' x = true -> krunning k x = true) /\ krunning k' (ws_tid s) = false
+  /\ (forall y, tg = Some y -> ws_tid s = y)
+  /\ (forall p, s = WEvent p EvExit -> exists th, kget k' p = Some th /\ k_st th = KEv EvExit).
+Proof.
+  induction fuel as [|fuel IH]; intros k sch tg s k' sch' H; [discriminate|].
+  cbn [kwait] in H.
+  match type of H with (if negb ?c then _ else _) = _ => destruct c; cbn [negb] in H; [|discriminate] end.
+  assert (REP : forall x0 s0 tg0, first_reportable k (map fst (k_threads k)) tg0 = Some (x0, s0) ->
+     (tg0 = tg \/ (tg = None)) -> s = s0 -> k' = kconsume k x0 ->
+     (forall x, krunning k' x = true -> krunning k x = true) /\ krunning k' (ws_tid s) = false
+     /\ (forall y, tg = Some y -> ws_tid s = y)
+     /\ (forall p, s = WEvent p EvExit -> exists th, kget k' p = Some th /\ k_st th = KEv EvExit)).
+  { intros x0 s0 tg0 Hf Htg -> ->. destruct (first_reportable_spec _ _ _ _ _ Hf) as (th & Hg & Hs & Ht).
+    destruct (kconsume_spec _ _ _ _ Hg Hs) as (C1 & C2 & C3).
+    destruct (kstatus_spec _ _ _ Hs) as (T & _ & _).
+    split; [exact C1|]. split; [rewrite T; exact C2|]. split.
+    - intros y Hy. rewrite T. destruct Htg as [Htg|Htg]; subst; [apply Ht; reflexivity | discriminate].
+    - intros p Hp. assert (p = x0) by (subst s0; cbn [ws_tid] in T; exact T). subst p. eapply C3; eauto. }
+  assert (STEP : forall c sch1, kwait fuel (kenv k c) sch1 tg = Ok (s, (k', sch')) ->
+     (forall x, krunning k' x = true -> krunning k x = true) /\ krunning k' (ws_tid s) = false
+     /\ (forall y, tg = Some y -> ws_tid s = y)
+     /\ (forall p, s = WEvent p EvExit -> exists th, kget k' p = Some th /\ k_st th = KEv EvExit)).
+  { intros c sch1 Hk. destruct (IH _ _ _ _ _ _ Hk) as (A & B & C & D).
+    split; [|auto]. intros x Hx. eapply kenv_mono. apply A. exact Hx. }
+  assert (NORMAL : forall sch0,
+     match first_reportable k (map fst (k_threads k)) tg with
+     | Some (x, s) => Ok (s, (kconsume k x, sch0))
+     | None =>
+         match sch0 with
+         | c :: sch1 => kwait fuel (kenv k c) sch1 tg
+         | [] => match kdefault k with Some c => kwait fuel (kenv k c) [] tg | None => OutOfFuel end
+         end
+     end = Ok (s, (k', sch')) ->
+     (forall x, krunning k' x = true -> krunning k x = true) /\ krunning k' (ws_tid s) = false
+     /\ (forall y, tg = Some y -> ws_tid s = y)
+     /\ (forall p, s = WEvent p EvExit -> exists th, kget k' p = Some th /\ k_st th = KEv EvExit)).
+  { intros sch0 Hn. destruct (first_reportable k (map fst (k_threads k)) tg) as [[x0 s0]|] eqn:Hf.
+    - inv Hn. eapply REP; eauto.
+    - destruct sch0 as [|c sch1].
+      + destruct (kdefault k) as [c|]; [|discriminate]. eapply STEP; eauto.
+      + eapply STEP; eauto. }
+  destruct sch as [|c sch1]; [apply (NORMAL [] H)|].
+  destruct c as [a b|a|a|a|a b|a|t];
+    [ exact (NORMAL (CSend a b :: sch1) H) | exact (NORMAL (CSig a :: sch1) H) | exact (NORMAL (CIntr a :: sch1) H)
+    | exact (NORMAL (CRun a :: sch1) H) | exact (NORMAL (CClone a b :: sch1) H) | exact (NORMAL (CExit a :: sch1) H) | ].
+  destruct tg as [y0|]; [exact (NORMAL (CPick t :: sch1) H)|].
+  destruct (first_reportable k (map fst (k_threads k)) (Some t)) as [[x0 s0]|] eqn:Hf.
+  - inv H. destruct (first_reportable_spec _ _ _ _ _ Hf) as (th & Hg & Hs & Ht).
+    specialize (Ht t eq_refl). subst x0. eapply REP; eauto.
+  - destruct (IH _ _ _ _ _ _ H) as (A & B & C & D). auto.
+Qed.
+
+Lemma kw_wait_law : forall w tg s w', kw_wait w tg = Ok (s, w') ->
+  (forall x, krun w' x -> krun w x) /\ ~ krun w' (ws_tid s)
+  /\ (forall y, tg = Some y -> ws_tid s = y) /\ (forall p, s = WEvent p EvExit -> kexit w' p).
+Proof.
+  intros [k sch] tg s [k' sch'] H.
+  change (kwait KFUEL k sch tg = Ok (s, (k', sch'))) in H. revert H. generalize KFUEL. intros fuel H.
+  destruct (kwait_law _ _ _ _ _ _ _ H) as (A & B & C & D).
+  unfold krun, kexit; cbn [fst]. split; [exact A|]. split; [congruence|]. split; auto.
+Qed.
+
+Lemma kresume_law : forall k x0 d tf ok k', kresume k x0 d tf = (ok, k') ->
+  forall x, krunning k' x = true -> krunning k x = true \/ (ok = true /\ x0 = x /\ ~ kexit (k, @nil choice) x).
+Proof.
+  intros k x0 d tf ok k' H x Hr. unfold kresume in H.
+  destruct (kget k x0) as [th|] eqn:E; [|inv H; auto].
+  destruct (kst_stopped_reported th); [|inv H; auto].
+  inv H. rewrite krunning_logs in Hr.
+  match type of Hr with match alist_get N.eqb (k_threads (kset k x0 ?v)) x with _ => _ end = true =>
+    change (krunning (kset k x0 v) x = true) in Hr end.
+  apply krunning_kset in Hr. cbn [k_st] in Hr. destruct Hr as [(-> & Hr & _)|(_ & Hr)]; auto.
+  right. repeat split; auto. intros (th' & Hg & Hs). cbn [fst] in Hg. rewrite E in Hg. inv Hg.
+  rewrite Hs in Hr. discriminate.
+Qed.
+
+Lemma kw_req_law : forall w r ok w', kw_req w r = (ok, w') ->
+  forall x, krun w' x -> krun w x \/ (ok = true /\ resumes r = Some x /\ ~ kexit w x).
+Proof.
+  intros [k sch] r ok [k' sch'] H x Hr. unfold kw_req in H; cbn [fst snd] in H.
+  destruct (kreq k r) as [ok0 k0] eqn:Er. inv H. unfold krun in *; cbn [fst] in *.
+  assert (EX : forall y, kexit (k, @nil choice) y <-> kexit (k, sch') y) by (intros y; reflexivity).
+  destruct r as [y d|y d|y|y|y pc|a|a]; cbn [kreq resumes] in *.
+  - destruct (kresume_law _ _ _ _ _ _ Er x Hr) as [|(A & B & C)]; subst; auto.
+  - destruct (kresume_law _ _ _ _ _ _ Er x Hr) as [|(A & B & C)]; subst; auto.
+  - destruct (kresume_law _ _ _ _ _ _ Er x Hr) as [|(A & B & C)]; subst; auto.
+  - left. destruct (kget k y) as [th|] eqn:E; [|inv Er; auto].
+    destruct (k_st th) eqn:Es; inv Er; auto;
+    (apply krunning_kset in Hr; cbn [k_st] in Hr; destruct Hr as [(-> & Hr & _)|(_ & Hr)]; auto;
+     rewrite krunning_def, E, Es; exact Hr).
+  - left. destruct (kget k y) as [th|] eqn:E; [|inv Er; auto].
+    destruct (kst_stopped_reported th); inv Er; auto.
+    apply krunning_kset in Hr; cbn [k_st] in Hr; destruct Hr as [(-> & Hr & _)|(_ & Hr)]; auto.
+    rewrite krunning_def, E; exact Hr.
+  - left. inv Er. exact Hr.
+  - left. inv Er. exact Hr.
+Qed.
+
+Lemma kw_intr_law : forall w x w', kw_req w (PInterrupt x) = (false, w') -> ~ krun w' x.
+Proof.
+  intros [k sch] x [k' sch'] H. unfold kw_req in H; cbn [fst snd kreq] in H. unfold krun; cbn [fst].
+  destruct (kget k x) as [th|] eqn:E.
+  - destruct (k_st th) eqn:Es; inv H. rewrite krunning_def, E, Es. discriminate.
+  - inv H. rewrite krunning_def, E. discriminate.
+Qed.
+
+Definition ktinv (t : tracer) (w : kworld) : Prop := tinv kworld krun t w.
+
+(* C09 all-stop, for every schedule of the kernel model, any number of threads, any breakpoint
+   table: Tracer::resume keeps the invariant and, when it reports a stop to the user, no thread
+   of the debuggee is running; a stopped thread cannot start by itself (kenv_mono). *)
+Theorem all_stop_resume : forall f bps t w t' w' sr, ktinv t w ->
+  k_resume f bps t w = Ok (t', w', sr) ->
+  ktinv t' w' /\ (real_stop (Some sr) = true -> allstopped t' /\ all_stopped_k (fst w')).
+Proof.
+  intros f bps t w t' w' sr TI H.
+  destruct (resume_all_stop kworld kw_wait kw_req kw_pc krun kexit kw_wait_law kw_req_law kw_intr_law
+              _ _ _ _ _ _ _ TI H) as (T' & A).
+  split; [exact T'|]. intros Hs. destruct (A Hs) as (A1 & A2). split; [exact A1|].
+  intros x. specialize (A2 x). unfold krun in A2. destruct (krunning (fst w') x); [exfalso; auto | reflexivity].
+Qed.
+
+Theorem all_stop_single_step : forall f bps t w pid t' w' r, ktinv t w -> is_stopped (st_of t pid) = true ->
+  k_sstep f bps t w pid = Ok (t', w', r) ->
+  ktinv t' w' /\ (allstopped t -> allstopped t' /\ all_stopped_k (fst w')).
+Proof.
+  intros f bps t w pid t' w' r TI Hs H.
+  destruct (sstep_keeps kworld kw_wait kw_req kw_pc krun kexit kw_wait_law kw_req_law kw_intr_law
+              _ _ _ _ _ _ _ _ TI Hs H) as (T' & A).
+  split; [exact T'|]. intros Ha. destruct (A Ha) as (A1 & A2). split; [exact A1|].
+  intros x. specialize (A2 x). unfold krun in A2. destruct (krunning (fst w') x); [exfalso; auto | reflexivity].
+Qed.
+
+(* the initial state (every thread stopped, as after the entry breakpoint) satisfies the invariant *)
+Lemma ktinv_init : forall threads sch, NoDup (map fst threads) -> ktinv (tinit threads) (kinit threads [] [], sch).
+Proof.
+  intros threads sch ND. split; [|split; [|reflexivity]].
+  - intros x Hr. exfalso. unfold krun, krunning, kget, kinit in Hr; cbn [fst k_threads] in Hr.
+    induction threads as [|[y pc] l IH]; cbn [map alist_get fst snd] in Hr; [discriminate|].
+    destruct (x =? y); [discriminate|]. apply IH; auto. cbn [map fst] in ND. inv ND. auto.
+  - unfold keys_ok, tinit; cbn [t_threads]. rewrite map_map. cbn [fst]. exact ND.
+Qed.
+
+(* any sequence of resume calls, by induction *)
+Theorem C09_all_stop_runs : forall n f bps t w t' w' srs, ktinv t w ->
+  k_resume_run f bps t w n = Ok (t', w', srs) ->
+  ktinv t' w' /\ (forall sr, last srs SRStart = sr -> real_stop (Some sr) = true -> all_stopped_k (fst w')).
+Proof.
+  induction n as [|n IH]; intros f bps t w t' w' srs TI H; cbn [k_resume_run resume_run] in H.
+  - inv H. split; auto. intros sr <- Hs. discriminate.
+  - unfold k_resume_run in IH. fold (k_resume f bps t w) in H.
+    destruct (k_resume f bps t w) as [[[t1 w1] sr1]| | |] eqn:E1; cbn [bind] in H; try discriminate.
+    destruct (all_stop_resume _ _ _ _ _ _ _ TI E1) as (T1 & A1).
+    destruct (resume_run kworld kw_wait kw_req kw_pc f bps t1 w1 n) as [[[t2 w2] srs2]| | |] eqn:E2; cbn [bind] in H; try discriminate.
+    inv H. destruct (IH _ _ _ _ _ _ _ T1 E2) as (T2 & A2). split; [exact T2|].
+    intros sr Hl Hs. destruct n as [|n'].
+    + cbn [resume_run] in E2. inv E2. cbn [last] in Hs. apply A1; auto.
+    + destruct srs2 as [|s2 rest2].
+      * cbn [resume_run] in E2.
+        destruct (resume kworld kw_wait kw_req kw_pc f bps t1 w1) as [[[? ?] ?]| | |]; cbn [bind] in E2; try discriminate.
+        destruct (resume_run kworld kw_wait kw_req kw_pc f bps t0 k n') as [[[? ?] ?]| | |]; cbn [bind] in E2; discriminate.
+      * apply (A2 sr); auto.
+Qed.
